@@ -120,6 +120,11 @@ type notaryEnv struct {
 	srv     pb.NotaryAPIServer
 	wallets []*wallet.Wallet
 	ctx     context.Context
+	// direct oracles, see state()
+	prevState      string
+	expectSame     string
+	mustNotSeal    string
+	mustNotSealLen int
 }
 
 const notaryDataSize = 48
@@ -235,6 +240,25 @@ func (e *notaryEnv) state() {
 		a = strings.Join(awl, ",")
 	}
 	e.c.Line("ST %s | %s", strings.Join(sealed, ","), a)
+	// direct oracles (besides the replay on the model): a request that does not verify changes nothing;
+	// a proposal carrying data is never sealed by the proposal itself
+	cur := strings.Join(sealed, ",") + " | " + a
+	if e.expectSame != "" && e.prevState != "" && cur != e.prevState {
+		for _, pid := range []string{"C15", "C16"} {
+			e.c.Violate(pid, "rejected-request-changed-state:"+e.expectSame, fmt.Sprintf("a %s request whose signatures do not verify changed the node: sealed | awaiting was [%s], is [%s]", e.expectSame, e.prevState, cur),
+				map[string]interface{}{"section": "notary", "call": e.expectSame})
+		}
+	}
+	if e.mustNotSeal != "" && !strings.Contains(strings.Split(e.prevState, " | ")[0], e.mustNotSeal) {
+		for _, h := range sealed {
+			if h == e.mustNotSeal {
+				e.c.Violate("C16", "contract-sealed-by-proposal", fmt.Sprintf("a proposal carrying %d bytes of data was sealed into the ledger on the issuer signature alone (transaction %s)", e.mustNotSealLen, h[:8]),
+					map[string]interface{}{"section": "notary", "call": "propose", "data_len": e.mustNotSealLen})
+			}
+		}
+	}
+	e.expectSame, e.mustNotSeal = "", ""
+	e.prevState = cur
 }
 
 func (e *notaryEnv) propose(t *transaction.Transaction) error {
@@ -243,6 +267,12 @@ func (e *notaryEnv) propose(t *transaction.Transaction) error {
 		panic(err)
 	}
 	e.acc.called = false
+	if t.VerifyIssuer(wallet.NewVerifier()) != nil {
+		e.expectSame = "propose"
+	}
+	if len(t.Data) > 0 {
+		e.mustNotSeal, e.mustNotSealLen = hex.EncodeToString(t.Hash[:]), len(t.Data)
+	}
 	f, b := e.flash.removes.Load(), e.cache.balOps.Load()
 	_, rerr := e.srv.Propose(e.ctx, p)
 	if rerr == nil && len(t.Data) == 0 {
@@ -259,6 +289,9 @@ func (e *notaryEnv) confirm(t *transaction.Transaction) error {
 		panic(err)
 	}
 	e.acc.called = false
+	if t.VerifyIssuerReceiver(wallet.NewVerifier()) != nil {
+		e.expectSame = "confirm"
+	}
 	f, b := e.flash.removes.Load(), e.cache.balOps.Load()
 	_, rerr := e.srv.Confirm(e.ctx, p)
 	if rerr == nil {
@@ -276,6 +309,9 @@ func signedHash(signer *wallet.Wallet, address string, data []byte) *pb.SignedHa
 
 func (e *notaryEnv) reject(r *pb.SignedHash) error {
 	e.acc.called = false
+	if len(r.Hash) != 32 || wallet.NewVerifier().Verify(r.Data, r.Signature, [32]byte(r.Hash), r.Address) != nil {
+		e.expectSame = "reject"
+	}
 	f, b := e.flash.removes.Load(), e.cache.balOps.Load()
 	_, rerr := e.srv.Reject(e.ctx, r)
 	if rerr == nil {
